@@ -22,7 +22,7 @@ EXPECT = [
     ('f5767c9', 'C17', 'L3 / Scanner::read_escaped_bytes / loop over advance() looks for newlines'),
     ('6ca1d5b', 'C17', 'L4 / try_handle_error records the current instruction'), ('c0b4111', 'C17', 'L3 / Scanner::string / advance() is preceded by a look-ahead'),
     ('ca6eca8', 'C03', 'T10 / yarel::scanner::Scanner::string'), ('a2081e8', 'C06', 'S8 / reset_stack closes upvalues in a loop'),
-    ('1342e1d', 'C14', 'M7 / start_import_impl registers the module only behind'), ('1a2d6ec', 'C17', 'L10 / '), ('ac5baca', 'C06', 'S10 / import_statement'), ('7580dc4', 'C18', 'Q2 / JumpIfStopIter walks the superclass chain'), ('64c9574', 'C10', 'V7 / vm::Vm::build_range'), ('4c64225', 'C08', 'X19 / unwind_stack leaves the parked return'), ('aeddc12', 'C13', 'U9 / scanner::Scanner::read_escaped_bytes'), ('1404413', 'C06', "S11 / Parser::<'a>::resolve_upvalue <- Compiler::resolve_local"),
+    ('1342e1d', 'C14', 'M7 / start_import_impl registers the module only behind'), ('1a2d6ec', 'C17', 'L10 / '), ('ac5baca', 'C06', 'S10 / import_statement'), ('7580dc4', 'C18', 'Q2 / JumpIfStopIter walks the superclass chain'), ('64c9574', 'C10', 'V7 / vm::Vm::build_range'), ('4c64225', 'C08', 'X19 / unwind_stack leaves the parked return'), ('aeddc12', 'C13', 'U9 / scanner::Scanner::read_escaped_bytes'), ('1404413', 'C06', "S11 / Parser::<'a>::resolve_upvalue <- Compiler::resolve_local"), ('fc343c2', 'C05', 'E13 / Value::ObjBoundNative == Value::ObjBoundNative'),
 ]
 root = tempfile.mkdtemp(prefix='yarel_snapshot_')
 first = subprocess.run(['git', '-C', '/repo', 'rev-list', '--max-parents=0', 'HEAD'], capture_output=True, text=True).stdout.split()[0]
